@@ -5,7 +5,6 @@ from __future__ import annotations
 from typing import TYPE_CHECKING, Any, ClassVar, Generic, TypeVar, cast
 from warnings import warn
 
-import numpy as np
 
 from quansino.mc.contexts import DisplacementContext, HamiltonianDisplacementContext
 from quansino.mc.core import MonteCarlo
@@ -115,9 +114,7 @@ class Canonical(MonteCarlo[MoveType, CriteriaType], Generic[MoveType, CriteriaTy
         """Validate the simulation by checking if the last positions and last energy are
         set."""
         self.context.last_positions = self.atoms.get_positions()
-
-        if np.isnan(self.context.last_potential_energy):
-            self.context.last_potential_energy = self.atoms.get_potential_energy()
+        self.context.last_potential_energy = self.atoms.get_potential_energy()
 
         super().validate_simulation()
 
